@@ -43,6 +43,7 @@ var handlers = map[string]func([]string) string{
 	"PE":  pe.Handle,
 	"E2E": e2e.Handle,
 	"CMS": cms.Handle,
+	"MSI": c18.MsiHandle,
 	"CAB": cab.Handle,
 	"PS":  ps.Handle,
 	"C09": c09.Handle,
@@ -108,7 +109,8 @@ func forProp(prop string, g func(*bufio.Writer, uint64, string, string)) genFunc
 
 func init() {
 	// C05 (digests are what the specifications prescribe): PE image hash ops, PE checksum ops, APK merkle ops, ECDSA width ops
-	gens["C05"] = []genFunc{forProp("C05", pe.Gen), filtered(c09.Gen, "cksum", "fixpe", "fixpehex", "merkle"), filtered(c19.Gen, "ecdsa", "ecdsasign")}
+	gens["C05"] = []genFunc{forProp("C05", pe.Gen), filtered(c09.Gen, "cksum", "fixpe", "fixpehex", "merkle"), filtered(c19.Gen, "ecdsa", "ecdsasign"), forProp("C05", c18.MsiGen)}
+	gens["C18"] = append(gens["C18"], forProp("C18", c18.MsiGen))
 	for _, p := range []string{"C01", "C02", "C03", "C08", "C11"} {
 		gens[p] = append(gens[p], forProp(p, pe.Gen))
 		if p != "C11" { // C11 has its own runner (crash isolation, workers); it sweeps cab/ps through the entry points
